@@ -137,6 +137,8 @@ def _t_qconv2d(rng, di):
        "bq": gen_wq(rng, 1, data_independent=di)}
   if rng.chance(0.2):
     l["aq"] = gen_aq(rng)
+  if l["kernel"] >= 2 and rng.chance(0.2):
+    l["mask"] = True      # a kernel mask with zeros (checkerboard)
   return l
 
 
@@ -368,11 +370,16 @@ def _layer(l, name):
                      bias_quantizer=q(l.get("bq")),
                      activation=q(l.get("aq")), name=name)
   if t == "QConv2D":
+    mask = None
+    if l.get("mask"):
+      k = l["kernel"]
+      mask = np.fromfunction(lambda i, j: ((i + j) % 2 == 0), (k, k)).astype(
+          np.float32)
     return qk.QConv2D(l["filters"], l["kernel"], strides=l.get("strides", 1),
                       padding=l["padding"], use_bias=l["use_bias"],
                       kernel_quantizer=q(l.get("kq")),
                       bias_quantizer=q(l.get("bq")),
-                      activation=q(l.get("aq")), name=name)
+                      activation=q(l.get("aq")), mask=mask, name=name)
   if t == "QDepthwiseConv2D":
     return qk.QDepthwiseConv2D(l["kernel"], strides=l.get("strides", 1),
                                padding=l["padding"],
